@@ -663,3 +663,65 @@ class RequestBodyReadSize(FnCheck):
             if len(args) == 1:
                 n = ex.concrete_kind(rst, args[0], ('int',))
                 ex.oblige(rst, 'requested_size_is_never_negative', (n.e >= 0) if n.kind == 'int' else z3.BoolVal(False))
+
+
+@register
+class ReasonPhrasesNeverQuoteMessageContent(ScanCheck):
+    id = 'C13.reason_phrases_never_quote_message_content'
+    prop = 'C13'
+    doc = ('frame: the `reason` of every HTTPRequestHandlingError raised in the package - it becomes the reason phrase '
+           'of the status line, which http.server encodes as strict latin-1 and writes verbatim - is a string constant, '
+           'or the f-string of pathelementregistry.get_instance that quotes the request path element (latin-1 by '
+           'construction of the request line, no line break). It never quotes message content (element names, values, '
+           'parser messages): a non-latin-1 character there would raise UnicodeEncodeError out of send_response (no '
+           'status, no fault), a line feed would split the status line')
+
+    def scan(self, repo):
+        import os
+        exc_mod = repo.module('sdc11073.exceptions')
+        classes = {}
+        for cname, cd in exc_mod.classes.items():
+            if cname == 'HTTPRequestHandlingError' or any(ast.unparse(b2) in classes or ast.unparse(b2) == 'HTTPRequestHandlingError' for b2 in cd.bases):
+                classes[cname] = cd
+        out = []
+        bad_init = []
+        for cname, cd in classes.items():
+            if cname == 'HTTPRequestHandlingError':
+                continue
+            for fn in [f for f in cd.body if isinstance(f, ast.FunctionDef) and f.name == '__init__']:
+                for c in ast.walk(fn):
+                    if isinstance(c, ast.Call) and ast.unparse(c.func) == 'super().__init__' and len(c.args) >= 2:
+                        r = c.args[1]
+                        if not (isinstance(r, ast.Constant) and isinstance(r.value, str)) and not (isinstance(r, ast.Name) and r.id == 'reason'):
+                            bad_init.append((cname, ast.unparse(r)))
+        out.append(('exception_classes_use_fixed_reasons_or_forward_the_argument', not bad_init, {'sites': str(bad_init)}))
+        takes_reason = {'HTTPRequestHandlingError': 1, 'InvalidPathError': 0, 'ValidationError': 0}
+        bad, n_sites = [], 0
+        root = os.path.join(repo.roots[0], 'sdc11073')
+        for dirpath, _d, files in os.walk(root):
+            for fnm in files:
+                if not fnm.endswith('.py'):
+                    continue
+                path = os.path.join(dirpath, fnm)
+                rel = os.path.relpath(path, repo.roots[0]).replace(os.sep, '/')
+                with open(path) as f:
+                    tree = ast.parse(f.read())
+                for c in ast.walk(tree):
+                    if not (isinstance(c, ast.Call) and ast.unparse(c.func).split('.')[-1] in takes_reason):
+                        continue
+                    name = ast.unparse(c.func).split('.')[-1]
+                    kw = {k.arg: k.value for k in c.keywords}
+                    pos = takes_reason[name]
+                    r = kw.get('reason', c.args[pos] if len(c.args) > pos else None)
+                    if r is None:
+                        continue
+                    n_sites += 1
+                    ok = isinstance(r, ast.Constant) and isinstance(r.value, str)
+                    if isinstance(r, ast.JoinedStr):
+                        interp = [ast.unparse(v.value) for v in r.values if isinstance(v, ast.FormattedValue)]
+                        ok = rel == 'sdc11073/dispatch/pathelementregistry.py' and interp == ['path_element']
+                    if not ok:
+                        bad.append((rel, c.lineno, ast.unparse(r)[:80]))
+        out.append(('raise_sites_found', n_sites >= 2, {'n': n_sites}))
+        out.append(('no_reason_phrase_quotes_message_content', not bad, {'sites': str(bad)[:300]}))
+        return out
